@@ -396,6 +396,8 @@ impl<'env> Executor<'env> {
                 }
                 Instruction::Emit => {
                     let value = stack.pop();
+                    #[cfg(feature = "verif_hooks")]
+                    crate::verif_hooks::output::on_emit(out.verif_id(), &value);
                     if state.env().is_default_formatter() {
                         if strict_undefined
                             && matches!(value.0, ValueRepr::Undefined(UndefinedType::Default))
@@ -972,6 +974,8 @@ impl<'env> Executor<'env> {
             let current_block = state.current_block;
             #[cfg(feature = "macros")]
             let old_closure = state.ctx.take_closure();
+            #[cfg(feature = "verif_hooks")]
+            crate::verif_hooks::output::on_enter(out.verif_id(), "include");
             let rv = state.with_execution_state(
                 new_instructions,
                 tmpl.initial_auto_escape(),
@@ -979,6 +983,8 @@ impl<'env> Executor<'env> {
                 BlockState::Replace(prepare_blocks(new_blocks)),
                 |state| Self::eval_state(state, out),
             );
+            #[cfg(feature = "verif_hooks")]
+            crate::verif_hooks::output::on_leave(out.verif_id(), "include", rv.is_ok());
             #[cfg(feature = "macros")]
             state.ctx.reset_closure(old_closure);
             state.ctx.decr_depth(INCLUDE_RECURSION_COST);
@@ -1044,6 +1050,8 @@ impl<'env> Executor<'env> {
         let instructions = state.blocks.get(name).unwrap().instructions();
         let auto_escape = state.auto_escape;
         let current_block = state.current_block;
+        #[cfg(feature = "verif_hooks")]
+        crate::verif_hooks::output::on_enter(out.verif_id(), "super");
         let rv = state.with_execution_state(
             instructions,
             auto_escape,
@@ -1051,6 +1059,8 @@ impl<'env> Executor<'env> {
             BlockState::Keep,
             |state| Self::eval_state(state, out),
         );
+        #[cfg(feature = "verif_hooks")]
+        crate::verif_hooks::output::on_leave(out.verif_id(), "super", rv.is_ok());
         state.ctx.pop_frame();
         state.blocks.get_mut(name).unwrap().pop();
 
